@@ -34,6 +34,20 @@ BadCfgs ==
 \* ---- semilocal modes, SDMX variants, fractional Laplacian, with a default NLDF
 DefN == N("j", "MGGA", "one", 3, TRUE, <<>>, <<>>, <<>>, <<"se", "se_ar2">>, <<3, 3>>)
 SLCfgs == {[sl |-> m, nldf |-> n, sdmx |-> NoSDMX, fl |-> NoFL] : m \in {"nst", "npa", "ns", "np", "bogus", "NPA"}, n \in {NoNLDF, DefN}}
+\* ---- semilocal mode x NORMALISER CLASS: the recommended normaliser of a feature is a constant, a density power, an
+\* inhomogeneity power or a general one depending on version / spec / rho_mult, and the density and the inhomogeneity
+\* variable are read from mode-specific columns ('nst' carries tau, 'npa' carries alpha): every valid mode is crossed
+\* with NLDF settings that produce every normaliser class, with and without fractional-Laplacian features
+TL(lv) == IF lv = "MGGA" THEN 3 ELSE 2
+LevelOf(m) == IF m \in {"nst", "npa"} THEN "MGGA" ELSE "GGA"
+NormN(lv) == {N("j", lv, "expnt", TL(lv), TRUE, <<>>, <<>>, <<>>, <<"se", "se_ar2">>, <<TL(lv), TL(lv)>>),
+              N("j", lv, "one", TL(lv), TRUE, <<>>, <<>>, <<>>, <<"se_a2r4", "se_erf_rinv">>, <<TL(lv), TL(lv) + 1>>),
+              N("k", lv, "expnt", TL(lv), TRUE, <<>>, <<>>, <<>>, <<"se", "se">>, <<TL(lv), TL(lv)>>),
+              N("i", lv, "one", TL(lv), TRUE, <<"se_r2", "se_ap">>, <<"se_grad">>, <<<<0, 0>>, <<-1, 0>>>>, <<>>, <<>>),
+              N("i", lv, "expnt", TL(lv), TRUE, <<"se", "se_apr2">>, <<"se_grad", "se_rvec">>, <<<<0, 1>>, <<-1, 1>>>>, <<>>, <<>>)}
+FL1 == [present |-> TRUE, s2 |-> <<-1, 1>>, nk0 |-> 2, nk1 |-> 1, dots |-> <<<<-1, 0>>>>, nd1 |-> 1, ndd |-> 1]
+SLNormCfgs == UNION {{[sl |-> m, nldf |-> n, sdmx |-> NoSDMX, fl |-> f] : n \in NormN(LevelOf(m)), f \in {NoFL, FL1}} : m \in {"nst", "npa", "ns", "np"}}
+              \cup {[sl |-> m, nldf |-> NoNLDF, sdmx |-> NoSDMX, fl |-> FL1] : m \in {"nst", "npa", "ns", "np"}}
 Pows == SeqsUpTo({0, 1, 2}, 3)
 SDMXCfgs ==
   {[sl |-> "npa", nldf |-> n, sdmx |-> [kind |-> k, pows |-> p, nd |-> nd, n1 |-> n1, full |-> <<>>], fl |-> NoFL] :
@@ -54,7 +68,7 @@ FLCfgs ==
   {[sl |-> "npa", nldf |-> NoNLDF, sdmx |-> NoSDMX,
     fl |-> [present |-> TRUE, s2 |-> s2, nk0 |-> a, nk1 |-> b, dots |-> d, nd1 |-> c, ndd |-> e]] :
       s2 \in {<<-1>>, <<-1, 1>>, <<0, 1, 2>>}, a \in 0..3, b \in 0..2, d \in SeqsUpTo(DotPairs, 1), c \in 0..2, e \in 0..2}
-QuickCfgs == <<VICfgs(1, 2, 2), VJKCfgs(2), VIJCfgs, BadCfgs, SLCfgs, SDMXCfgs, SDMXFullCfgs, FLCfgs>>
-FullCfgs == <<VICfgs(2, 2, 2), VJKCfgs(2), VIJCfgs, BadCfgs, SLCfgs, SDMXCfgs, SDMXFullCfgs, FLCfgs>>
+QuickCfgs == <<VICfgs(1, 2, 2), VJKCfgs(2), VIJCfgs, BadCfgs, SLCfgs, SLNormCfgs, SDMXCfgs, SDMXFullCfgs, FLCfgs>>
+FullCfgs == <<VICfgs(2, 2, 2), VJKCfgs(2), VIJCfgs, BadCfgs, SLCfgs, SLNormCfgs, SDMXCfgs, SDMXFullCfgs, FLCfgs>>
 ASSUME DeclaredMatchesDerived
 ====
